@@ -31,6 +31,8 @@ def run(ctx):
     specs += opskit.merge_specs(ctx.rng, ctx.n(6, 60))
     specs += opskit.mutation_after_speciation_specs(ctx.rng, ctx.n(30, 300))
     specs += opskit.persistent_specs(ctx.rng, ctx.n(20, 200))  # one operator object per kind for the whole sequence, 0 < p < 1
+    specs += opskit.large_population_specs(ctx.rng, ctx.n(3, 12))
+    specs += opskit.new_species_specs(ctx.rng, ctx.n(8, 80))
     specs += opskit.twin_pipeline_specs(ctx.rng, ctx.n(15, 150))
     for _ in range(ctx.n(150, 3000)):
         spec = opskit.random_spec(ctx.rng)
